@@ -342,7 +342,9 @@ def gen_sequence(rng, maxlen, ident=False):
 
     def value():
         val[0] += 1
-        return round(rng.uniform(0.5, 900.0), 6) + val[0] * 1000.0  # never repeats within a sequence
+        v = round(rng.uniform(0.5, 900.0), 6) + val[0] * 1000.0  # never repeats within a sequence
+        # assumption review: every parameter value used to be positive; state values may be negative as well (still unique)
+        return -v if rng.random() < 0.15 else v
 
     def mutate():
         k = rng.random()
